@@ -207,11 +207,11 @@ func (g *g) anyE(d int) *N {
 }
 
 type callee struct {
-	name    string
-	n       int  // parameters (incl. the variadic one)
-	vari    bool
-	typed   []string // nil = any
-	path    string
+	name  string
+	n     int // parameters (incl. the variadic one)
+	vari  bool
+	typed []string // nil = any
+	path  string
 }
 
 var callees = []callee{
